@@ -184,6 +184,9 @@ func runC04(c *Ctx) {
 	queueNextRepr(c, "C04.requeue")
 	resetRemoveAnnounce(c, "C04.reset-announce")
 	contentWriters(c, "C04.handles-keep-value")
+	walkExcl(c, "C04.walk-excl")
+	c.Borrow("C08", map[string]string{"C08.timer": "C04.timer"}, "a send timer left armed while nothing is being sent ends a healthy STREAM subscription with a timeout: every later change is lost to that subscriber")
+	c.Borrow("C07", map[string]string{"C07.resp-faithful": "C04.resp-faithful"}, "'coalesced into a later message carrying that leaf's newest value': the message is the whole cached notification (all updates of an atomic group), also when a duplicate count is attached")
 	c.Borrow("C11", map[string]string{"C11.token": "C04.wakeup", "C11.wait-set": "C04.wait-set"}, "a lost wake-up leaves the sender asleep with changes pending: the subscriber never converges")
 	c.Borrow("C03", map[string]string{"C03.write-then-return": "C04.leaf-handle", "C03.equal-sound": "C04.change-not-hidden", "C03.delete-path": "C04.delete-path"}, "the queue holds leaf handles and the sender reads the value at send time: the handle announced for a change must be the tree's own node (a detached copy goes stale and is queued beside the real node), and the event-driven suppression may hide only changes that leave the value equal")
 	c.Rule("C04.registration-kept", "a stream's registration survives the end of other streams: removeQuery prunes a node only when it holds neither clients nor children (a pruned node silently stops every later change from reaching the subscribers registered below it)")
